@@ -515,7 +515,19 @@ func restCase() {
 type planStep struct{ idx, kind int }
 
 // one run of the public flow under a plan
-func planCase(variant string, steps []planStep) {
+// modeStates: contents of the telemetry mode file (nil = no file)
+var modeStates = []struct {
+	name    string
+	content []byte
+}{
+	{"absent", nil}, {"empty", []byte{}}, {"blank", []byte(" \n")}, {"tabs", []byte("\t\n \n")}, {"garbage", []byte("xyz")},
+	{"off", []byte("off")}, {"off-nl", []byte("off\n")}, {"off-date", []byte("off 2024-01-01\n")}, {"on-date", []byte("on 2024-01-01")},
+	{"local", []byte("local")}, {"long", []byte(strings.Repeat("a", 1500))}, {"spaces-off", []byte("   off   ")},
+}
+
+func planCase(variant string, steps []planStep) { planCaseMode(variant, 0, steps) }
+
+func planCaseMode(variant string, modeIdx int, steps []planStep) {
 	dir, err := os.MkdirTemp(root, "p")
 	if err != nil {
 		panic(err)
@@ -533,7 +545,7 @@ func planCase(variant string, steps []planStep) {
 	vatomic.ResetClosed()
 	vosc.Reset(nil)
 	local := telemetry.Default.LocalDir()
-
+	mode := modeStates[modeIdx]
 	// initial state of the directory
 	wk := "absent"
 	cf := "absent"
@@ -570,6 +582,13 @@ func planCase(variant string, steps []planStep) {
 			fd.WriteAt([]byte("garbage!"), 40)
 			fd.Close()
 			cf = "badhdr"
+		}
+	}
+	// the mode file is put in place after the (fault-free, mode-less) preparation above
+	if mode.content != nil {
+		os.MkdirAll(filepath.Dir(telemetry.Default.ModeFile()), 0777)
+		if err := os.WriteFile(telemetry.Default.ModeFile(), mode.content, 0666); err != nil {
+			panic(err)
 		}
 	}
 	day0, _ := os.ReadFile(filepath.Join(local, "weekends"))
@@ -638,8 +657,14 @@ func planCase(variant string, steps []planStep) {
 	fields = append(fields, log...)
 	day1, _ := os.ReadFile(filepath.Join(local, "weekends"))
 	fields = append(fields, B(len(day0) == 0 || len(day1) == 0 || day0[0] == day1[0]))
+	if mode.content == nil {
+		fields = append(fields, "nomode")
+	} else {
+		fields = append(fields, "mode", H(mode.content))
+	}
 	out.Case(true, fields...)
 	out.Note("plan-" + variant)
+	out.Note("mode-" + mode.name)
 	if status == "ok" {
 		f.Close()
 	}
@@ -656,6 +681,15 @@ func planCases(thorough bool, budget int) int {
 	for _, v := range variants {
 		planCase(v, nil)
 		n++
+	}
+	// every state of the mode file, without fault and with one fault early / late
+	for mi := 1; mi < len(modeStates); mi++ {
+		for _, v := range []string{"fresh", "existing"} {
+			planCaseMode(v, mi, nil)
+			planCaseMode(v, mi, []planStep{{0, vosc.KEIO}})
+			planCaseMode(v, mi, []planStep{{7, vosc.KShort}})
+			n += 3
+		}
 	}
 	for _, v := range variants {
 		for i := 0; i < maxIdx; i++ {
